@@ -18,7 +18,7 @@ fn run_line(line: &str, o: &mut String) -> Option<()> {
     let (op, a) = items.split_first()?;
     let op = op.atom()?;
     match op {
-        "dec" | "dect" | "enc" | "enct" | "fromv" | "tov" | "chain" | "chaint" | "layer" => {
+        "dec" | "dect" | "enc" | "enct" | "fromv" | "tov" | "chain" | "chaint" | "layer" | "time" => {
             let [t, arg] = a else { return None };
             ops::type_dispatch(op, t.atom()?, arg, o)
         }
